@@ -343,8 +343,10 @@ Definition cstep (s : cstate) (o : cop) (ob : cobs) : cstate * bool :=
   | CCancel k =>
       match lookup_fin k (cs_fin s) with
       | Some al =>
+          (* the conn is down and the call WILL return one of [al]; but its goroutine may
+             not have looked yet, and then ctx.Done is one more ready case of its select *)
           (CState (cs_p s) (cs_next s) (cs_calls s) (filter (fun e => negb (fst e =? k)) (cs_fin s)) (cs_down s),
-           match ob with CoOutcome p e => allowed (p, e) al | _ => false end)
+           match ob with CoOutcome p e => allowed (p, e) (([], E_canceled) :: al) | _ => false end)
       | None =>
         match lookup k (cs_calls s) with
         | None => (s, match ob with CoNone => true | _ => false end)
